@@ -166,6 +166,15 @@ func (w *World) failFor(prop, clause, detail string, a ...interface{}) {
 	}
 }
 
+// cfgPredicate qualifies signatures with the one configuration that is a known finding:
+// registered-types unmarshalling without example key/value types in the compact format.
+func (w *World) cfgPredicate() string {
+	if w.cfg.NoLike && w.cfg.Format == FmtBinary {
+		return "/registered-types-without-examples/" + FmtBinary
+	}
+	return ""
+}
+
 func (w *World) stopped() bool { return w.viol != nil || w.st.Truncated != "" }
 
 // ---- helpers: calling into the library with panic capture ----
@@ -1277,11 +1286,11 @@ func (w *World) opPersist(op *Op) {
 		return
 	}
 	if r.bad() {
-		w.failFor("C05", "persisted-root-unloadable", "root just returned cannot be loaded/iterated from the store: %s", r)
+		w.failFor("C05", "persisted-root-unloadable"+w.cfgPredicate(), "root just returned cannot be loaded/iterated from the store: %s", r)
 		return
 	}
 	if !sameStrs(obs, preObs) {
-		w.failFor("C05", "persisted-contents-differ", "contents loaded from the returned root differ from the tree's: %s", firstDiff(obs, preObs))
+		w.failFor("C05", "persisted-contents-differ"+w.cfgPredicate(), "contents loaded from the returned root differ from the tree's: %s", firstDiff(obs, preObs))
 		return
 	}
 	if int(root.Size) != t.model.Len() {
